@@ -193,6 +193,41 @@ def property_checks(par):
     return out
 
 
+def big_grid_checks(par, nsel=12):
+    """grid sizes beyond the small exhaustive ones (incl. sizes whose FFT is 'slow': 26, 34, 38, 46): rows of the exact
+    ensemble covariance for a few pixels against the inverse DFT sum on the screen's OWN grid; zero mean; constant variance"""
+    out = []
+    N = par["N"]
+    npr = numpy.random.default_rng(par["data_seed"])
+    with warnings.catch_warnings():
+        warnings.simplefilter("ignore")
+        W = W_hi(par)
+        if W.shape != (N * N, 2 * N * N):
+            return [("screen of size N x N, linear in 2 N^2 draws (N = %d)" % N, float("inf"), 0.0)]
+        df = 1.0 / (N * par["delta"])
+        k = numpy.arange(N) - N // 2
+        KX, KY = numpy.meshgrid(k, k)
+        P = psd_ref(par, KX * df, KY * df); P[N // 2, N // 2] = 0
+        idx = numpy.arange(N)
+        X, Y = numpy.meshgrid(idx, idx)
+        xs, ys = X.ravel(), Y.ravel()
+        sel = npr.choice(N * N, size=nsel, replace=False)
+        Csub = W[sel] @ W.T
+        dx = xs[sel][:, None] - xs[None, :]; dy = ys[sel][:, None] - ys[None, :]
+        Cref = numpy.zeros((nsel, N * N))
+        for i in range(N):
+            for j in range(N):
+                if P[i, j]:
+                    Cref += P[i, j] * df ** 2 * numpy.cos(2 * numpy.pi * (KX[i, j] * dx + KY[i, j] * dy) / N)
+        var = (W ** 2).sum(axis=1)
+        a1, b1 = npr.normal(size=(N, N)), npr.normal(size=(N, N))
+        s1 = hi(par, a1, b1)
+    out.append(("covariance rows = inverse DFT sum of the spectrum on the screen's own grid (N = %d)" % N, float(numpy.abs(Csub - Cref).max() / Cref.max()), 1e-9))
+    out.append(("position-independent variance (N = %d)" % N, float(numpy.ptp(var) / var.max()), 1e-9))
+    out.append(("zero spatial mean of every realisation (N = %d)" % N, float(abs(s1.mean()) / numpy.abs(s1).max()), 1e-9))
+    return out
+
+
 def grid_refinement_check():
     """structure function of the FFT screen approaches the analytic one at small separations as the grid grows"""
     errs = []
@@ -230,6 +265,18 @@ def falsify(ctx, deep=False):
             worst[clause] = max(worst.get(clause, -1e300), err if math.isfinite(err) else 1e300)
             if not (err <= tol):
                 viols.append({"clause": clause, "error": err, "tolerance": tol, "input": inp})
+    # two larger grids per run
+    for sizes in ([26, 34, 38, 46], [14, 18, 20, 22, 24, 28, 30, 32, 36, 40]):      # FFT-unfriendly sizes (2 x prime > 11), then the rest
+        inp = gen_input(rng)
+        inp.update({"N": rng.choice(sizes), "delta": rng.loguniform(0.02, 0.5), "big_grid": True})
+        try:
+            res = big_grid_checks(inp)
+        except Exception as ex:
+            res = [("raised %s: %s" % (type(ex).__name__, str(ex)[:80]), float("inf"), 0.0)]
+        for clause, err, tol in res:
+            worst[clause] = max(worst.get(clause, -1e300), err if math.isfinite(err) else 1e300)
+            if not (err <= tol):
+                viols.append({"clause": clause, "error": err, "tolerance": tol, "input": inp})
     if deep:
         e = grid_refinement_check()
         worst["structure function error at 2 pixels for N=8,16,32"] = e[-1]
@@ -249,7 +296,7 @@ def replay(payload):
         return False
     if "errors" in v["input"]:
         e = grid_refinement_check(); print("  errors", e); return e[2] < e[1] < e[0]
-    bad = [(c, e, t) for c, e, t in property_checks(v["input"]) if not (e <= t)]
+    bad = [(c, e, t) for c, e, t in (big_grid_checks(v["input"]) if v["input"].get("big_grid") else property_checks(v["input"])) if not (e <= t)]
     for c, e, t in bad:
         print("  clause %r: error %g > %g" % (c, e, t))
     return not bad
